@@ -82,7 +82,7 @@ pub(crate) fn reserve_post(
                 }
             } else if g.kind == K_HEAP {
                 cov!(true, "reserve.shared");
-                obl!(f.old_block_intact(g.rc - 1), "reserve.shared_old_block_intact", "C02,C03");
+                obl!(f.old_block_intact(g.rc - 1), "reserve.shared_old_block_intact", "C02,C03,C11");
                 obl!(h.kind == K_HEAP && h.base != g.base, "reserve.shared_moves_to_own_block", "C02");
                 obl!(h.cap == spec_growth(g.len, add), "reserve.growth_shared", "C12");
                 obl!(
@@ -223,7 +223,7 @@ pub(crate) fn ensure_modifiable_post(r: &Repr, f: &Frame, res: Result<(), Reserv
                 obl!(f.no_alloc_calls() && f.same_bits(r), "ensure_modifiable.unique_noop", "C11,C03");
             } else if g.kind == K_HEAP {
                 cov!(true, "ensure_modifiable.shared");
-                obl!(f.old_block_intact(g.rc - 1), "ensure_modifiable.shared_old_block_intact", "C02,C03");
+                obl!(f.old_block_intact(g.rc - 1), "ensure_modifiable.shared_old_block_intact", "C02,C03,C11");
                 obl!(h.kind == K_HEAP && h.base != g.base, "ensure_modifiable.shared_moves_to_own_block", "C02");
                 obl!(
                     f.allocs() == 1 && f.reallocs() == 0 && f.deallocs() == 0,
@@ -268,7 +268,7 @@ fn ensure_modifiable_heap_unique() {
     ensure_modifiable_contract(any_heap_rc(MAX_CAP, true));
 }
 
-// @harness name=ensure_modifiable_heap_shared nodebug=thorough hist=yes props=C01,C02,C03,C05 class=U tier=quick big=yes
+// @harness name=ensure_modifiable_heap_shared nodebug=thorough hist=yes props=C01,C02,C03,C05,C11 class=U tier=quick big=yes
 #[kani::proof]
 #[kani::stub(alloc::alloc::alloc, v_alloc)]
 #[kani::stub(alloc::alloc::dealloc, v_dealloc)]
@@ -277,7 +277,7 @@ fn ensure_modifiable_heap_shared() {
     ensure_modifiable_contract(any_heap_rc(MAX_CAP, false));
 }
 
-// @harness name=ensure_modifiable_heap_reach props=C01,C02,C03,C05 class=U tier=quick covers=ensure_modifiable.err_reachable,ensure_modifiable.unique,ensure_modifiable.shared
+// @harness name=ensure_modifiable_heap_reach props=C01,C02,C03,C05,C11 class=U tier=quick covers=ensure_modifiable.err_reachable,ensure_modifiable.unique,ensure_modifiable.shared
 #[kani::proof]
 #[kani::stub(alloc::alloc::alloc, v_alloc)]
 #[kani::stub(alloc::alloc::dealloc, v_dealloc)]
@@ -554,7 +554,7 @@ pub(crate) fn shrink_to_post(r: &Repr, f: &Frame, m: usize, res: Result<(), Rese
                 cov!(g.rc == 1, "shrink_to.unique_to_inline");
                 obl!(h.kind == K_INLINE, "shrink_to.to_inline_when_it_fits", "C13");
                 if g.rc > 1 {
-                    obl!(f.old_block_intact(g.rc - 1) && f.no_alloc_calls(), "shrink_to.shared_to_inline_block_intact", "C02,C03");
+                    obl!(f.old_block_intact(g.rc - 1) && f.no_alloc_calls(), "shrink_to.shared_to_inline_block_intact", "C02,C03,C11");
                 } else {
                     obl!(
                         f.deallocs() == 1 && f.allocs() == 0 && f.reallocs() == 0 && !is_live(g.base),
@@ -567,7 +567,7 @@ pub(crate) fn shrink_to_post(r: &Repr, f: &Frame, m: usize, res: Result<(), Rese
                 cov!(g.rc == 1, "shrink_to.unique_exact");
                 obl!(h.kind == K_HEAP && h.cap == target, "shrink_to.exact_max_len_m", "C13");
                 if g.rc > 1 {
-                    obl!(f.old_block_intact(g.rc - 1), "shrink_to.shared_old_block_intact", "C02,C03");
+                    obl!(f.old_block_intact(g.rc - 1), "shrink_to.shared_old_block_intact", "C02,C03,C11");
                     obl!(h.base != g.base && h.rc == 1, "shrink_to.shared_moves_to_own_block", "C02");
                     obl!(
                         f.allocs() == 1 && f.reallocs() == 0 && f.deallocs() == 0 && live_blocks() == f.live + 1,
